@@ -63,7 +63,7 @@ Definition toydb_find (db : toydb) (ediv rnd : N) (addr : list N) : option (list
 Definition toydb_store (db : toydb) (addr key : list N) (rnd ediv : N) : toydb := (addr, key, rnd, ediv) :: db.
 Definition toydb_new (db : toydb) (n : N) (addr : list N) : list N * N * N :=
   (toy_X 20 (ctr_bytes n ++ addr), toy_h 22 (ctr_bytes n), toy_h 21 (ctr_bytes n) mod 65536).
-Definition toydbops : dbops toydb := mkdb toydb toydb_find toydb_store toydb_new.
+Definition toydbops : dbops toydb := mkdb toydb_find toydb_store toydb_new.
 
 (* reference values, also checked by harness/toy_crypto.hpp (selftest op) and props/sm_common.py *)
 Example toy_h_ref : toy_h 1 [1; 2; 3] = 17107466. Proof. vm_compute. reflexivity. Qed.
